@@ -17,7 +17,7 @@ RULE = ("'fn' cases: each of the 16 public unit-scaled functions with seeded sha
         "are compared; the Dynamo counters must show a captured graph (otherwise the comparison would be eager-vs-eager). fx: "
         "symbolic_trace + GraphModule forward values for every function that traces; the library's leaf-wrapping tracer "
         "(_DeepTracer) for outputs and gradients of compositions. Non-trivial = forward and backward scale factors differ somewhere "
-        "or a constraint is active; distinct = (function/composition signature, dtype, backend).")
+        "or a constraint is active; distinct = (function/composition signature, dtype, backend). A third of the cases run an eager no_grad / inference_mode pass first.")
 ASSUMPTIONS = ["eager execution is the reference", "Inductor may reorder reductions: float tolerance; aot_eager expected bit-identical (4 ulp allowed)"]
 IMPORTS = ["unit_scaling.scale", "unit_scaling.functional", "unit_scaling.parameter", "unit_scaling.utils", "unit_scaling._modules"]
 REQUIRED_MONITORS = ["compiled:cases", "compiled:graphs-captured", "compiled:outputs-compared", "compiled:grads-compared", "fx:traced-functions",
